@@ -3,5 +3,5 @@ Require Import IP.Base.Bytes IP.DM.Value IP.Heap.GoMem IP.Heap.BasicHeap IP.Heap
 Require Extraction.
 Require Import ExtrOcamlBasic.
 Extraction Language OCaml.
-Extraction "model.ml" sstep_full sinit slegal has_stream cfg_pinned cfg_repaired f64_is_nan dm_eqb
+Extraction "model.ml" sstep_full sinit slegal has_stream cfg_pinned cfg_repaired cfg_of f64_is_nan dm_eqb
   pstep legal runh legalh read_obs.
